@@ -15,7 +15,7 @@ import (
 func init() {
 	fw.Register(&fw.Check{
 		ID: "C04", Level: "model_checking",
-		Rule: "abstract API models rendered to text and compared with a reference catalog computed from the model (never from the text): (a) one focus HTTP method = request form {none, @type, [@type], inline schema, regex, any, empty, Headers+Body, Body only} x response list of length 0..2 over 9 response forms x query {none, plain, example, example+format} x annotation x description x placement {path-bearing at top level, first / second method of an implicit URL block, of a parenthesised URL block}, between filler declarations; (b) JSON-RPC method = annotation x description x params x result x placement; (c) declarations: every subset of INFO children, SERVER with/without annotation, TYPE of every notation and body of the body alphabet with/without annotation, ENUM with notes, in three positions among fillers; (d, thorough) every focus method also written with CRLF line ends, tab indentation and trailing comments; oracle: every field the model declares equals the catalog's, collections hold exactly the expected keys in source order, arrays have exactly the expected length, undeclared optional fields are absent; non-trivial = accepted model; distinct = distinct texts",
+		Rule: "abstract API models rendered to text and compared with a reference catalog computed from the model (never from the text): (a) one focus HTTP method = request form {none, @type, [@type], inline schema, regex, any, empty, Headers+Body, Body only} x response list of length 0..2 over 9 response forms x query {none; example absent / present x format absent / htmlFormEncoded / noFormat} x annotation x description x placement {path-bearing at top level, first / second method of an implicit URL block, of a parenthesised URL block}, between filler declarations; (b) JSON-RPC method = annotation x description x params x result x placement; (c) declarations: every subset of INFO children, SERVER with/without annotation, TYPE of every notation and body of the body alphabet with/without annotation, ENUM with notes, in three positions among fillers; (d, thorough) every focus method also written with CRLF line ends, tab indentation and trailing comments; oracle: every field the model declares equals the catalog's, collections hold exactly the expected keys in source order, arrays have exactly the expected length, undeclared optional fields are absent; non-trivial = accepted model; distinct = distinct texts",
 		Assume: []string{"schema content is compared by a digest (token type, type, keys and values of children, used user types) computed from the model for a body alphabet of 10 schemas; the schema library is trusted for the rest of the AST",
 			"unknown additional scalar fields inside an entry are ignored (projection), membership and order of every collection are exact"},
 		Run: runC04, QuickCap: 8 * time.Minute, ThoroughCap: 40 * time.Minute,
@@ -352,23 +352,41 @@ func runC04(c *fw.Ctx) {
 	qdig := func(e exp, p string) {
 		jsightDigest("object", "object", "", [][3]string{{"a", "number", "1"}}, nil)(e, p+".schema")
 	}
-	queries := []qform{
-		{"none", nil, func(e exp, p string) { e[p] = absent }},
-		{"plain", func() *doc.Node { return doc.N("Query").WithBody("{\n  \"a\": 1\n}") }, func(e exp, p string) {
-			e[p+".format"] = "htmlFormEncoded"
-			e[p+".example"] = absent
-			qdig(e, p)
-		}},
-		{"example", func() *doc.Node { return doc.N("Query", "\"a=1&b=2\"").WithBody("{\n  \"a\": 1\n}") }, func(e exp, p string) {
-			e[p+".format"] = "htmlFormEncoded"
-			e[p+".example"] = "a=1&b=2"
-			qdig(e, p)
-		}},
-		{"example+format", func() *doc.Node { return doc.N("Query", "\"a=1\"", "noFormat").WithBody("{\n  \"a\": 1\n}") }, func(e exp, p string) {
-			e[p+".format"] = "noFormat"
-			e[p+".example"] = "a=1"
-			qdig(e, p)
-		}},
+	// Query: {no directive} + example {absent, present} x format {absent, htmlFormEncoded, noFormat}
+	queries := []qform{{"none", nil, func(e exp, p string) { e[p] = absent }}}
+	for _, ex := range []string{"", "a=1&b=2"} {
+		for _, fm := range []string{"", "htmlFormEncoded", "noFormat"} {
+			ex, fm := ex, fm
+			name := "query"
+			if ex != "" {
+				name += "+example"
+			}
+			if fm != "" {
+				name += "+" + fm
+			}
+			queries = append(queries, qform{name, func() *doc.Node {
+				n := doc.N("Query")
+				if ex != "" {
+					n.Params = append(n.Params, "\""+ex+"\"")
+				}
+				if fm != "" {
+					n.Params = append(n.Params, fm)
+				}
+				return n.WithBody("{\n  \"a\": 1\n}")
+			}, func(e exp, p string) {
+				if fm == "" {
+					e[p+".format"] = "htmlFormEncoded"
+				} else {
+					e[p+".format"] = fm
+				}
+				if ex == "" {
+					e[p+".example"] = absent
+				} else {
+					e[p+".example"] = ex
+				}
+				qdig(e, p)
+			}})
+		}
 	}
 	var respLists [][]int
 	respLists = append(respLists, nil)
